@@ -111,6 +111,10 @@ def _check_op(rep, f, op, bits, vbits, tag):
     # W2: single locked RMW
     rep.check(e.kind == RMW_OPS[op] and e.locked, "C20.W2", tag + ".single-locked-rmw", "one %s instruction (lock prefix / xchg / atomicrmw)" % e.kind,
               "uatomic_%s is a %s%s: not a single atomic read-modify-write (updates can be lost)" % (op, e.kind, "" if e.locked else " without lock prefix"), site)
+    if e.inst.op == "asm":
+        rep.check(bool(e.memread), "C20.W9", tag + ".memory-operand-read-write", "the asm declares *addr as read and written (\"+m\")",
+                  "the %s asm declares *addr write-only (\"=m\"): the instruction reads the old value, but the compiler is told it does not - gcc -O1 deletes a preceding plain store "
+                  "to the location as dead (`x = 5; uatomic_%s(&x…)` operates on the stale bytes), the memory clobber does not prevent it" % (e.rop or e.kind, op), site)
     rep.check(e.compiler or e.full, "C20.W3", tag + ".memory-clobber", "acts as a compiler barrier (memory clobber)", "atomic instruction lacks the memory clobber", site)
     if op in FULL_OPS:
         full = e.full
